@@ -113,3 +113,29 @@ func TestChangeBucketOwnerBucketIsAName(t *testing.T) {
 		t.Errorf("change-bucket-owner of an existing bucket: %v", r)
 	}
 }
+
+// An empty path segment is dropped by the file system: "a//b" named the file of the key "a/b" (and "/b" in a batch
+// delete the file of "b"), while policies and locks were evaluated for the spelling that was sent. A Deny on
+// other/secret* did not cover the copy source "other//secret", a batch delete of "/secret" removed the key "secret".
+func TestEmptyPathSegmentsAreNotResolved(t *testing.T) {
+	g, c := setup(t)
+	if r := g.Put(c, "/mine/a//b", []byte("x"), nil); r.Err != nil || r.Status/100 == 2 {
+		t.Errorf("PUT /mine/a//b: %v, want a 4xx error", r)
+	}
+	if _, err := os.Stat(filepath.Join(g.Root, "mine", "a", "b")); err == nil {
+		t.Errorf("PUT /mine/a//b created the file of the key a/b")
+	}
+	if r := g.Get(c, "/other//secret", nil); r.Status/100 == 2 {
+		t.Errorf("GET /other//secret: %v", r)
+	}
+	r := g.Put(c, "/mine/copy", nil, map[string]string{"X-Amz-Copy-Source": "other//secret"})
+	mustNotLeak(t, "CopyObject with source other//secret", r)
+	if got := g.Get(c, "/mine/copy", nil); strings.Contains(string(got.Body), "other-bucket-secret") {
+		t.Errorf("the copy holds the content of other/secret")
+	}
+	body := `<Delete><Object><Key>/secret</Key></Object></Delete>`
+	d := g.Post(c, "/other?delete", []byte(body), nil)
+	if still := g.Get(c, "/other/secret", nil); still.Status != 200 {
+		t.Errorf("batch delete of the key \"/secret\" answered %d and removed the key \"secret\"", d.Status)
+	}
+}
